@@ -38,7 +38,15 @@ func (db *DatabaseContext) DeleteRole(ctx context.Context, name string, purge bo
 		return err
 	}
 
-	return authenticator.DeleteRole(role, purge, seq)
+	err = authenticator.DeleteRole(role, purge, seq)
+	// The sequence is only stored on the role document by a successful non-purge delete. Otherwise release it, unless
+	// the outcome of the write is unknown (timeout).
+	if purge || (err != nil && !base.IsTimeoutError(err)) {
+		if releaseErr := db.sequences.releaseSequence(ctx, seq); releaseErr != nil {
+			base.InfofCtx(ctx, base.KeyAuth, "Error releasing unused sequence %d after deleting role %s: %v", seq, base.UD(name), releaseErr)
+		}
+	}
+	return err
 }
 
 // UpdatePrincipal updates or creates a principal from a PrincipalConfig structure.
@@ -225,6 +233,12 @@ func (dbc *DatabaseContext) UpdatePrincipal(ctx context.Context, updates *auth.P
 				base.InfofCtx(ctx, base.KeyAuth, "Error releasing unused sequence %d after CAS retry for principal %s: %v", nextSeq, base.UD(princ.Name()), err)
 			}
 		} else {
+			// release the sequence number we allocated if the principal was not saved, unless the outcome is unknown (timeout)
+			if err != nil && !base.IsTimeoutError(err) {
+				if releaseErr := dbc.sequences.releaseSequence(ctx, nextSeq); releaseErr != nil {
+					base.InfofCtx(ctx, base.KeyAuth, "Error releasing unused sequence %d after failed update of principal %s: %v", nextSeq, base.UD(princ.Name()), releaseErr)
+				}
+			}
 			return replaced, princ, err
 		}
 	}
